@@ -548,3 +548,26 @@ free piece:
 +--------+-------+-------------+-----------------------------------+
 ```
 */
+
+// verification hook: layout-probe
+#[cfg(abyssiniandb_verif)]
+pub(crate) fn verif_value_slot(value_len: usize) -> (u32, u32) {
+    let piece_mgr = PieceMgr::new(&REC_SIZE_FREE_OFFSET, &REC_SIZE_ARY);
+    let piece = ValuePiece::with_value(&vec![0u8; value_len]);
+    let (encorded_piece_len, piece_len, _value_len) = piece.encoded_piece_size();
+    let est = encorded_piece_len + piece_len;
+    (est, piece_mgr.roundup(ValuePieceSize::new(est)).as_value())
+}
+#[cfg(abyssiniandb_verif)]
+pub(crate) fn verif_value_roundup(size: u32) -> u32 {
+    let piece_mgr = PieceMgr::new(&REC_SIZE_FREE_OFFSET, &REC_SIZE_ARY);
+    piece_mgr.roundup(ValuePieceSize::new(size)).as_value()
+}
+#[cfg(abyssiniandb_verif)]
+pub(crate) fn verif_value_free_list_offset(size: u32) -> (u64, bool) {
+    let piece_mgr = PieceMgr::new(&REC_SIZE_FREE_OFFSET, &REC_SIZE_ARY);
+    (
+        piece_mgr.free_piece_list_offset_of_header(ValuePieceSize::new(size)),
+        piece_mgr.is_large_piece_size(ValuePieceSize::new(size)),
+    )
+}
